@@ -384,6 +384,37 @@ fn c01_routes(case: &Case) {
             return;
         }
     }
+    // the prefix parsers: the frame followed by more bytes (the next frame of a pipelined
+    // buffer, or junk) parses to the frame itself, nothing more
+    {
+        let extra = pick(&[1usize, 7, 48, 300]);
+        let longer = [want.clone(), crate::codec::pattern(0xabcd, extra)].concat();
+        match MessageView::from_slice(&longer) {
+            Ok(v) => {
+                if !fields_same(case, "MessageView::from_slice (frame followed by more bytes)", &v.header, v.query, v.body, &f) {
+                    return;
+                }
+                if !same(case, "MessageView::from_slice(..).to_message().to_vec()", &v.to_message().to_vec(), &want, &what) {
+                    return;
+                }
+            }
+            Err(e) => {
+                case.fail("round-trip-differs", format!("MessageView::from_slice rejected a frame followed by {extra} more bytes: {e} ({what})"));
+                return;
+            }
+        }
+        match Message::from_slice(&longer) {
+            Ok(m) => {
+                if !fields_same(case, "Message::from_slice (frame followed by more bytes)", &m.header, &m.query, &m.body, &f) {
+                    return;
+                }
+            }
+            Err(e) => {
+                case.fail("round-trip-differs", format!("Message::from_slice rejected a frame followed by {extra} more bytes: {e} ({what})"));
+                return;
+            }
+        }
+    }
     match repe::read_message(&mut FaultySource { data: &want, pos: 0 }) {
         Ok(m) => {
             if !fields_same(case, "read_message", &m.header, &m.query, &m.body, &f) {
@@ -817,6 +848,60 @@ fn c01_servers(case: &Case) {
             } else if *kind != "struct" {
                 case.check(per[0].1.unwrap().ec != 0, "round-trip-differs", || format!("request {k} ({kind}) was answered with ec=0"));
             }
+        }
+        // The WebSocket proxy as an emission route: whatever arrives downstream, what it puts on
+        // the upstream TCP stream is canonical frames of whole messages - a message with bytes
+        // behind its frame contributes that frame or nothing, never the extra bytes.
+        if simkernel::choose(3) == 0 {
+            let pl = simkernel::tokio_net::TcpListener::bind("127.0.0.1:0").await.unwrap();
+            let p_addr = pl.local_addr().unwrap();
+            let up_conn: Arc<std::sync::Mutex<Option<simkernel::net::ConnRef>>> = Default::default();
+            let up2 = up_conn.clone();
+            let proxy = tokio::spawn(async move {
+                let Ok((stream, _)) = pl.accept().await else { return };
+                let limits = repe::WebSocketLimits::unlimited();
+                let Ok(ws) = repe::websocket_server::WebSocketServer::accept_with_limits(stream, "/repe", limits).await else { return };
+                let Ok(client) = AsyncClient::connect(a_addr).await else { return };
+                *up2.lock().unwrap() = net::connections().last().cloned();
+                let _ = repe::websocket_server::proxy_connection_with_limits(ws, client, limits).await;
+            });
+            if let Ok(ws) = raw_connect(p_addr, "/repe").await {
+                use futures_util::SinkExt;
+                use tokio_tungstenite::tungstenite::Message as WsMessage;
+                let (mut sink, stream) = ws.split();
+                let inbox = Arc::new(Inbox::default());
+                let collector = spawn_collector(stream, inbox.clone());
+                let plain = Frame::new(7_001, b"/d", &[0, 0, 0, 0, 0, 0, 0, 0, 0, 1, 2, 3]).with_formats(1, 0);
+                let mut canon: Vec<Vec<u8>> = vec![plain.encode()];
+                let _ = sink.send(WsMessage::Binary(plain.encode())).await;
+                // a frame with junk behind it, and a frame with a second, complete frame stowed behind it
+                let tailed = Frame::new(7_002, b"/d", &[0, 0, 0, 0, 0, 0, 0, 0, 0, 9]).with_formats(1, 0);
+                let stow = Frame::new(7_003, b"/fails", b"{}").with_formats(1, 2);
+                let extra = if coin() { crate::codec::pattern(0x77, pick(&[1usize, 5, 48])) } else { stow.encode() };
+                let _ = sink.send(WsMessage::Binary([tailed.encode(), extra].concat())).await;
+                canon.push(tailed.encode());
+                let last = Frame::new(7_004, b"/d", &[0, 0, 0, 0, 0, 0, 0, 0, 0, 4]).with_formats(1, 0);
+                let _ = sink.send(WsMessage::Binary(last.encode())).await;
+                canon.push(last.encode());
+                let ib = inbox.clone();
+                wait_until(5_000, || !ib.responses_for(7_004).is_empty() || ib.ended()).await;
+                tokio::time::sleep(Duration::from_millis(20)).await;
+                let up = up_conn.lock().unwrap().clone();
+                if let Some(c) = up {
+                    let bytes = net::tap_of(&c, Side::A);
+                    // accepted: a subsequence of the canonical frames, in order
+                    let mut rest: &[u8] = &bytes;
+                    for f in &canon {
+                        if rest.starts_with(f) {
+                            rest = &rest[f.len()..];
+                        }
+                    }
+                    case.check(rest.is_empty(), "bytes-differ", || format!("the proxy wrote {} bytes upstream that are not the canonical frames of the messages it accepted ({} bytes unexplained; a message carried extra bytes behind its frame)", bytes.len(), rest.len()));
+                    case.probe("proxy_got_a_message_with_bytes_behind_its_frame");
+                }
+                collector.abort();
+            }
+            proxy.abort();
         }
         case.nontrivial();
         a_task.abort();
